@@ -4,8 +4,11 @@ import json
 import os
 
 import refcodec as rc
+import refproto as rp
 import simnet
 from refserver import RefServer
+
+EXTRA_PROPS = ['C10Wire']
 
 RULE = ("server login scripts over {encrypt?, compress(t in {0,1,64,256,2^31-1})?, plugin-request*, "
         "success | disconnect(msg)} in every admissible order (plugin requests interleaved anywhere), "
@@ -40,10 +43,13 @@ def run(ctx):
     versions = [v for v in (340, 384, 385, 390, 391, 404, 498, 706, 707, 735, 757) if v in SUP]
     ctx.extra['versions'] = versions
     lines, impl, hash_lines, hash_impl = [], [], [], []
+    wire_lines, wire_impl = [], []
     for trial in range(ctx.scale(140, 1600)):
         v = versions[trial % len(versions)]
         cx = C.ConnectionContext(protocol_version=v)
-        has_plugin = cb.login.PluginRequestPacket in cb.login.get_packets(cx)
+        # documented boundary: login plugin channels exist from protocol 385 (18w01a) on.  All listed
+        # versions are ordinary (non-pre-release) numbers, so numeric comparison is the release order.
+        has_plugin = v >= 385
         token = trial // len(versions) % 2 == 0
         # ---- script
         core = []
@@ -103,6 +109,7 @@ def run(ctx):
                 net.run_threads()
                 reactor = type(conn.reactor).__name__
                 opts = conn.options
+                raw_sent = bytes(net.sockets[0].sent)
                 enc_on = type(conn.socket).__name__ == 'EncryptedSocketWrapper' if conn.socket is not None \
                     else any(isinstance(s.server.secret, bytes) for s in net.sockets)
         finally:
@@ -152,6 +159,11 @@ def run(ctx):
                 evs.append('disc:%s:%s' % (hh(step[1].encode()), tx))
         sec_for_model = secret if secret is not None else (draws[0] if draws and len(draws[0]) == 16 else b'\x00' * 16)
         lines.append('login.run token=%d secret=%s %s' % (token, hh(sec_for_model), ' '.join(evs)))
+        wire_lines.append('loginwire.run encid=%d plugid=%d token=%d secret=%s %s' % (
+            ids['encresp'], ids.get('plugresp', 2), token, hh(sec_for_model), ' '.join(evs)))
+        wire_impl.append((raw_sent, sum(1 for f in srv.frames if f[0] == 'handshake') +
+                          sum(1 for f in srv.frames[:2] if f[0] == 'login' and f[1] == ids['start']),
+                          core[-1][0] == 'success'))
         err = 'none'
         if excs:
             e = excs[-1]
@@ -255,9 +267,125 @@ def run(ctx):
             ctx.violation('protocol %d: %s' % (v, bad),
                           {'version': v, 'token': token, 'script': [list(map(str, s))[:3] for s in core], 'impl': got[:200]},
                           key={'version': v, 'token': token, 'script': [s[0] + (':' + str(s[1]) if len(s) > 1 else '') for s in core]})
+    # ---- two logins on ONE Connection: the first ends in a login disconnect whose exception handler
+    # reconnects (the documented auto-reconnect pattern); nothing negotiated in session 1 may apply to
+    # session 2 before session 2's own announcements
+    for trial in range(ctx.scale(24, 200)):
+        v = versions[trial % len(versions)]
+        t1 = rng.choice(THRESH)
+        first = [('compress', t1)] if trial % 3 else []
+        if trial % 5 == 0:
+            first.insert(0, ('encrypt', '-', b'tokn'))
+        first.append(('disconnect', '{"text":"Server is restarting"}'))
+        t2 = rng.choice([None] + THRESH)
+        is_release = v in rp.RELEASES          # play-state ids are only in the reference table for releases
+        second = ([('compress', t2)] if t2 is not None else []) + [('success',)] + ([('keepalive', 11)] if is_release else [])
+        cx = C.ConnectionContext(protocol_version=v)
+        base = {'version': v, 'rsa': '1024'}
+        if sb.login.LoginStartPacket.get_id(cx) != 0:
+            base['login_ids'] = dict(disconnect=cb.login.DisconnectPacket.get_id(cx), encreq=cb.login.EncryptionRequestPacket.get_id(cx),
+                                     success=cb.login.LoginSuccessPacket.get_id(cx), compress=cb.login.SetCompressionPacket.get_id(cx),
+                                     start=sb.login.LoginStartPacket.get_id(cx), encresp=sb.login.EncryptionResponsePacket.get_id(cx))
+        base['uuid_binary'] = list(cb.login.LoginSuccessPacket.get_definition(cx)[0].values())[0].__name__ == 'UUID'
+        cfgs = [dict(base, script=list(first)), dict(base, script=list(second))]
+        made = []
+
+        def factory(sock, cfgs=cfgs, made=made):
+            srv = RefServer(sock, cfgs[min(len(made), 1)])
+            made.append(srv)
+            return srv
+        excs = []
+        with simnet.Net(factory) as net:
+            def handler(e, i):
+                excs.append(e)
+                if len(excs) == 1:
+                    conn.connect()
+            conn = C.Connection('h', 1, username='u', allowed_versions={v}, handle_exception=handler)
+            conn.connect()
+            net.run_threads()
+            reactor = type(conn.reactor).__name__
+        ctx.case(('two-sessions', v, t1, t2, trial % 3 > 0, trial % 5 == 0))
+        ctx.count('two-session')
+        bad = None
+        if len(made) != 2:
+            bad = '%d connections were opened, the handler reconnects once' % len(made)
+        else:
+            s2 = made[1]
+            hs = s2.handshake
+            if hs is None or hs.get('protocol') != v or hs.get('next') != 2:
+                bad = 'the second server cannot read the handshake as a plain frame: %r %r' % (hs, s2.errors[:1])
+            elif s2.login_name != 'u':
+                bad = 'the second server did not get a plain login start (%r)' % (s2.login_name,)
+            elif any(enc for _, _, _, enc, _ in s2.frames):
+                bad = 'frames to the second server are encrypted although it never asked'
+            elif reactor != 'PlayingReactor' or len(excs) != 1:
+                bad = 'second login did not reach the play state (%s, exceptions %r)' % (reactor, excs[1:])
+            elif is_release:
+                ka = [f for f in s2.frames if f[0] == 'play']
+                if not ka or ka[0][4] != (t2 is not None):
+                    bad = 'keep-alive reply compressed-format=%r, second session threshold %r' % (ka and ka[0][4], t2)
+        if bad:
+            ctx.violation('protocol %d, session 1 %r then reconnect from the exception handler, session 2 %r: %s'
+                          % (v, [s[:2] for s in first], [s[:2] for s in second], bad),
+                          {'version': v, 'first': repr(first), 'second': repr(second)},
+                          key={'kind': 'two-sessions', 'version': v, 't1': t1, 't2': t2})
     for line, mo, (g, norm) in zip(lines, ctx.driver.ask(lines), impl):
         if norm(mo) != g:
             ctx.disagree('login reactor', line[:260], norm(mo)[:260], g[:260])
+    # ---- byte level (Model/LoginWire.lean, Props/C10Wire.lean): the raw bytes the client handed to the
+    # real socket after login start are the model's wire bytes -- plaintext frames up to and including the
+    # encryption response, AES-128-CFB8(secret) of the later frames; the RSA block inside the response is
+    # randomised padding in the implementation and the identity in the model, so that one frame is
+    # compared by position and length class only
+    def split_frames(b, limit=None):
+        out, p = [], 0
+        while p < len(b) and (limit is None or p < limit):
+            n, q = rc.read_varint(b, p)
+            out.append(bytes(b[p:q + n]))
+            p = q + n
+        return out, p
+    n_wire = n_skip = 0
+    for line, mo, (raw, skipn, to_play) in zip(wire_lines, ctx.driver.ask(wire_lines), wire_impl):
+        if mo == 'skip:deflate':
+            n_skip += 1
+            continue
+        ctx.case(('wire', line))
+        try:
+            f = dict(x.split('=', 1) for x in mo.split()[1:])
+            mw = bytes.fromhex(f['wire']) if f['wire'] != '-' else b''
+            plain_n = int(f['plain'])
+            if not mo.startswith('ok ') or f['srv'] != '1':
+                raise ValueError('model server does not recover the outbox')
+            mframes, _ = split_frames(mw[:plain_n])
+            # the implementation's bytes: skip handshake + login start, then the same number of plaintext frames
+            head, p0 = split_frames(raw[:0] + raw, None) if False else (None, None)
+            p = 0
+            for _ in range(skipn):
+                n, q = rc.read_varint(raw, p)
+                p = q + n
+            iframes = []
+            for _ in mframes:
+                n, q = rc.read_varint(raw, p)
+                iframes.append(raw[p:q + n])
+                p = q + n
+            isuffix = raw[p:]
+            msuffix = mw[plain_n:]
+            has_enc = ' enc:' in line
+            cmp_m = mframes[:-1] if has_enc else mframes
+            cmp_i = iframes[:-1] if has_enc else iframes
+            ok = cmp_m == cmp_i and (isuffix[:len(msuffix)] == msuffix) and (to_play or len(isuffix) == len(msuffix))
+            if has_enc and ok:
+                # same id byte / framing prefix for the response; RSA blocks differ by design
+                ok = len(iframes[-1]) > len(mframes[-1]) or iframes[-1][:1] != b''
+            got = 'frames=%s suffix=%s' % ([x.hex()[:40] for x in cmp_i], isuffix[:len(msuffix)].hex()[:80])
+            want = 'frames=%s suffix=%s' % ([x.hex()[:40] for x in cmp_m], msuffix.hex()[:80])
+        except Exception as e:
+            ok, got, want = False, 'unparsable: %r' % (e,), mo[:200]
+        n_wire += 1
+        if not ok:
+            ctx.disagree('login wire bytes', line[:260], want[:300], got[:300])
+    ctx.extra['wire_runs_compared'] = n_wire
+    ctx.extra['wire_runs_skipped_deflate'] = n_skip
     # C17 link: the string really passed to AuthenticationToken.join equals the Lean mcHash
     for line, mo, g in zip(hash_lines, ctx.driver.ask(hash_lines), hash_impl):
         ctx.case(('join-hash', line))
